@@ -45,6 +45,31 @@ func (w *w5World) Gen(rng *rand.Rand, property, tier string) (any, simrt.Sched) 
 	b, sched := w5Gen(rng, tier)
 	// C20 runs: runOnRead / runOnUnread configured on the paths (their pairing per HLS session is judged)
 	b.Hooks = property == "C20"
+	if property == "C40" {
+		// a path of the regular-expression entry; its publisher leaves (and comes back) while an
+		// API client kicks the HLS sessions that read it
+		b.SegmentMaxKB = 0
+		pub := w5Actor{Kind: "pub", Path: "dyn1", User: "pub", Pass: "pubpw", IP: "127.0.0.1"}
+		for k, n := 0, 2+rng.Intn(3); k < n; k++ {
+			pub.Ops = append(pub.Ops, w5Op{Op: "session", Ms: int64(2000 + 1000*rng.Intn(3))}, w5Op{Op: "sleep", Ms: []int64{0, 300, 1500}[rng.Intn(3)]})
+		}
+		placed := false
+		for i := range b.Actors {
+			a := &b.Actors[i]
+			if a.Kind == "pub" && a.Path == "cam2" {
+				*a, placed = pub, true // (in place: attackers refer to viewers by their index)
+			}
+			if a.Kind == "viewer" {
+				a.Path, a.User, a.Pass, a.IP, a.XFF = "dyn1", "viewer2", "pw2", "10.0.0.5", ""
+				a.StartMs = int64(300 + rng.Intn(1500))
+				a.Ops = []w5Op{{Op: "play", N: int64(4 + rng.Intn(6)), Ms: 500}}
+			}
+		}
+		if !placed {
+			b.Actors = append(b.Actors, pub)
+		}
+		b.Actors = append(b.Actors, w5Actor{Kind: "kick", StartMs: 500, Ops: []w5Op{{Op: "kick", N: int64(3 + rng.Intn(4)), Ms: 4000}}})
+	}
 	if property == "C18" {
 		// the publisher of cam1 reconnects (leaves and is back at once) while viewers open sessions:
 		// a session that is being set up at that instant is attached to a stream that goes away
@@ -132,6 +157,37 @@ type w5Harness struct {
 	// reconn[k] is closed when the publisher of cam1 is about to reconnect for the k-th time
 	reconn  []chan struct{}
 	nreconn int
+	// C40 runs: closed (and replaced) whenever a publisher is about to leave
+	leaveCh chan struct{}
+}
+
+// runKicker is the API client that lists the HLS sessions and kicks every one of them, each
+// time a publisher is about to leave (or after Ms at the latest).
+func (h *w5Harness) runKicker(idx int, a *w5Actor) {
+	time.Sleep(time.Duration(a.StartMs) * time.Millisecond)
+	for _, op := range a.Ops {
+		for k := int64(0); k < op.N && !simrt.Aborted(); k++ {
+			h.mu.Lock()
+			ch := h.leaveCh
+			h.mu.Unlock()
+			select {
+			case <-ch:
+			case <-time.After(time.Duration(op.Ms) * time.Millisecond):
+			}
+			l, err := h.srv.APISessionsList()
+			if err != nil {
+				continue
+			}
+			items := append([]defs.APIHLSSession(nil), l.Items...)
+			sort.Slice(items, func(i, j int) bool { return items[i].ID.String() < items[j].ID.String() })
+			for _, sx := range items {
+				simrt.Rec("api.kick.call", sx.Path, sx.ID.String(), 0, 0, 0)
+				err = h.srv.APISessionsKick(sx.ID)
+				simrt.Rec("api.kick.ret", sx.Path, sx.ID.String(), 0, 0, 0)
+				_ = err
+			}
+		}
+	}
 }
 
 func (h *w5Harness) Log(level logger.Level, format string, args ...any) {
@@ -240,7 +296,8 @@ func (h *w5Harness) yaml() string {
 	if h.body.Hooks {
 		hk = "    runOnRead: simhook read\n    runOnUnread: simhook unread\n"
 	}
-	sb.WriteString("paths:\n  cam1:\n" + hk + "  cam2:\n" + hk)
+	// (the last one is a regular-expression entry: its paths exist only while somebody uses them)
+	sb.WriteString("paths:\n  cam1:\n" + hk + "  cam2:\n" + hk + "  '~^dyn[0-9]+$':\n" + hk)
 	return sb.String()
 }
 
@@ -317,6 +374,20 @@ func (h *w5Harness) runPub(idx int, a *w5Actor) {
 			time.Sleep(2 * time.Second)
 			simrt.Settle()
 			h.sessionsAreReaders()
+		}
+		h.mu.Lock()
+		kicker := h.leaveCh != nil
+		if kicker {
+			// C40 runs: whoever waits for a publisher to leave (the kicker) starts now; the
+			// scheduler decides how far it gets before the publisher is gone
+			close(h.leaveCh)
+			h.leaveCh = make(chan struct{})
+		}
+		h.mu.Unlock()
+		if kicker {
+			for i, n := 0, []int{0, 5, 10, 20, 40, 80}[simrt.Choose("leave.lead", 6)]; i < n; i++ {
+				simrt.Yield("leave.lead")
+			}
 		}
 		simrt.Rec("pub.remove", p.name, a.Path, 0, 0, 0)
 		res.Path.RemovePublisher(defs.PathRemovePublisherReq{Author: p})
@@ -717,6 +788,11 @@ func (h *w5Harness) main() {
 	}
 	simrt.Rec("init.done", "", "", 0, 0, 0)
 	for _, a := range h.body.Actors {
+		if a.Kind == "kick" && h.leaveCh == nil {
+			h.leaveCh = make(chan struct{})
+		}
+	}
+	for _, a := range h.body.Actors {
 		if a.Kind == "pub" && a.Path == "cam1" {
 			for _, op := range a.Ops {
 				if op.Op == "sleep" && op.Ms == 0 {
@@ -743,6 +819,8 @@ func (h *w5Harness) main() {
 				h.runViewer(i, a)
 			case "attacker":
 				h.runAttacker(i, a)
+			case "kick":
+				h.runKicker(i, a)
 			}
 		}()
 	}
